@@ -231,7 +231,10 @@ Definition c05_assign (pre post : dump) : string :=
         match find (fun x => nn_eqb (dw_id x) (dw_id w)) (ds_workers q0) with
         | Some w0 =>
           let had := match dw_task w0 with Some ops0 => same_set Nat.eqb ops0 ops || existsb (fun o => existsb (Nat.eqb o) ops0) ops | None => false end in
-          if negb had && is_drained_d q0 w0 k then "C05:drained-worker-received-task" else ""
+          (* a worker whose timeout lapsed within this event was removed and
+             registered anew: the old record says nothing about the new one *)
+          let expired := match dw_cleanup w0 with Some t => t <=? d_now post | None => false end in
+          if negb had && negb expired && is_drained_d q0 w0 k then "C05:drained-worker-received-task" else ""
         | None => ""
         end
       | _, _ => ""
